@@ -6,8 +6,9 @@
 (* and the model's next state must project onto the recorded projection of *)
 (* the real voter: current index, step, the latches precommitted/committed,*)
 (* the chamber tallies of the current wrapper for both proposals, the own  *)
-(* votes that left the node during the event and the packed precommit sets *)
-(* of its CommitEvents.                                                    *)
+(* votes that left the node during the event, the packed precommit sets   *)
+(* of its CommitEvents and, at an index change, the cached vote messages   *)
+(* the real handler replayed.                                              *)
 (***************************************************************************)
 EXTENDS VoteCount
 
@@ -30,14 +31,21 @@ IsEvent(name) == l <= Len(TraceLog) /\ TraceLog[l].ev = name /\ l' = l + 1
 Frame == UNCHANGED <<dl, dln, ownv, flags, nmsg, hist>>
 Take(e, x) == Matches(e, x) /\ v' = [x EXCEPT !.out = <<>>]
 
-FreshV == [i |-> 1, step |-> 0, pc |-> FALSE, cd |-> FALSE, cm |-> FALSE, over |-> {}, wr |-> [ii \in 1..MaxI |-> EmptyWrapper], out |-> <<>>]
+FreshV == [i |-> 1, step |-> 0, pc |-> FALSE, cd |-> FALSE, cm |-> FALSE, over |-> {}, wr |-> [ii \in 1..MaxI |-> EmptyWrapper],
+           cache |-> [ii \in 1..MaxI |-> <<>>], out |-> <<>>]
 TReset == (IsEvent("reset") \/ IsEvent("abort")) /\ v' = FreshV /\ Frame
 TCfg == IsEvent("Cfg") /\ Take(TraceLog[l], FreshV) /\ Frame
 TStep == /\ IsEvent("Step") /\ LET e == TraceLog[l] IN
             IF e.st = 2 THEN Take(e, OwnVote([v EXCEPT !.step = 2], "Prevote", e.best)) ELSE Take(e, [v EXCEPT !.step = e.st])
          /\ Frame
 TNextIdx == /\ IsEvent("NextIdx")
-            /\ Take(TraceLog[l], [v EXCEPT !.i = @ + 1, !.step = 0, !.pc = FALSE, !.cd = FALSE, !.cm = FALSE, !.over = {}])
+            /\ LET e == TraceLog[l]
+                   x == [v EXCEPT !.i = @ + 1, !.step = 0, !.pc = FALSE, !.cd = FALSE, !.cm = FALSE, !.over = {}]
+                   q == x.cache[x.i]
+               IN /\ Take(e, ReplayCached(x))
+                  \* the messages the real handler replayed, in the driver's order
+                  /\ [n \in 1..Len(OfKind(q, "Prevote") \o OfKind(q, "Precommit")) |-> (OfKind(q, "Prevote") \o OfKind(q, "Precommit"))[n]]
+                       = (IF "replayed" \in DOMAIN e THEN [n \in 1..Len(e.replayed) |-> [k |-> e.replayed[n].k, s |-> e.replayed[n].s, b |-> e.replayed[n].b]] ELSE <<>>)
             /\ Frame
 TRecv == /\ IsEvent("Recv") /\ LET e == TraceLog[l] IN Take(e, Recv(v, e.s, e.k, e.b, e.i, e.cred))
          /\ Frame
